@@ -33,6 +33,7 @@ type LoopSpec struct {
 	Dec     *Node
 	BodyEns []Clause
 	Mods    []*Node // extra havoc
+	Lets    []Clause // evaluated at loop entry (before havoc)
 }
 
 type Contract struct {
@@ -229,6 +230,16 @@ func applyDirective(c *Contract, t string, line int) error {
 				return err
 			}
 			ls.BodyEns = append(ls.BodyEns, cl)
+		case "let":
+			k := strings.Index(body, "=")
+			if k < 0 {
+				return fmt.Errorf("loop let needs =")
+			}
+			n, err := ParseExpr(strings.TrimSpace(body[k+1:]))
+			if err != nil {
+				return err
+			}
+			ls.Lets = append(ls.Lets, Clause{Label: strings.TrimSpace(body[:k]), E: n, Src: body, Line: line})
 		case "decreases":
 			n, err := ParseExpr(body)
 			if err != nil {
